@@ -7,4 +7,3 @@ import Eliot.Properties.C04
 #print axioms Sys.C04.probe_in_body_sees_action
 #print axioms Sys.C04.start_task_fresh
 #print axioms Sys.C04.contextless_msg_own_task
-#print axioms Sys.C04.skeleton_E6
